@@ -118,3 +118,31 @@ def count_set(op, k, maxn=64):
     f = {'==': operator.eq, '!=': operator.ne, '<': operator.lt, '<=': operator.le,
          '>': operator.gt, '>=': operator.ge}[op]
     return frozenset(n for n in range(maxn + 1) if f(n, k))
+
+
+def flatten_comp(t):
+    """[f(a) for a in [g(i) for i in R]]  ->  [f(g(i)) for i in R]   (with literal subscripts folded)"""
+    from ..paths import substitute, _mk_sub
+    if t[0] == 'comp' and len(t[3]) == 1:
+        var, it, conds = t[3][0]
+        it = flatten_comp(it)
+        if it[0] == 'comp' and len(it[3]) == 1 and not conds and not it[3][0][2] and var[0] == 'bv':
+            elt = substitute(t[2], {var: it[2]})
+            elt = _fold_subs(elt)
+            return ('comp', t[1], elt, it[3])
+        return ('comp', t[1], t[2], ((var, it, conds),))
+    return t
+
+
+def _fold_subs(t):
+    from ..paths import _mk_sub
+    if not isinstance(t, tuple) or not t or not isinstance(t[0], str):
+        return t
+    if t[0] in ('c', 's', 'bv', 'ref'):
+        return t
+    t = tuple(_fold_subs(x) if isinstance(x, tuple) and x and isinstance(x[0], str) else
+              (tuple(_fold_subs(y) if isinstance(y, tuple) else y for y in x) if isinstance(x, tuple) else x)
+              for x in t)
+    if t[0] == 'sub':
+        return _mk_sub(t[1], t[2])
+    return t
